@@ -48,7 +48,7 @@ fn stub_display_t(_e: &DelaunayTriangulationValidationError, _f: &mut core::fmt:
 type Dt2 = DelaunayTriangulation<FastKernel<f64>, (), (), 2>;
 
 macro_rules! gate_contract {
-    ($name:ident, $slice:ident) => {
+    ($name:ident, $call:expr) => {
         #[kani::proof]
         #[kani::unwind(4)]
         #[kani::stub(crate::core::util::delaunay_validation::is_delaunay_property_only, stub_brute)]
@@ -62,14 +62,18 @@ macro_rules! gate_contract {
             BRUTE_OK.store(false, AOrd::Relaxed);
             OTHER_CALLED.store(false, AOrd::Relaxed);
             let candidate = Dt2::empty();
-            let r = Dt2::$slice(candidate);
-            kani::cover!(r.is_ok(), "COV candidate accepted");
-            kani::cover!(r.is_err(), "COV candidate rejected");
+            let f: fn(Dt2) -> bool = $call;
+            let accepted = f(candidate);
+            kani::cover!(accepted, "COV candidate accepted");
+            kani::cover!(!accepted, "COV candidate rejected");
             assert!(BRUTE_CALLED.load(AOrd::Relaxed), "OBL gate-consulted: the brute-force empty-circumsphere check is consulted for every candidate");
-            assert!(r.is_ok() == BRUTE_OK.load(AOrd::Relaxed), "OBL ok-iff-certified: the candidate is returned iff the brute-force check accepted it");
-            core::mem::forget(r);
+            assert!(accepted == BRUTE_OK.load(AOrd::Relaxed), "OBL ok-iff-certified: the candidate is returned iff the brute-force check accepted it");
         }
     };
 }
-gate_contract!(first_gate_contract, verif_slice_gate_first);
-gate_contract!(retry_gate_contract, verif_slice_gate_retry);
+fn keep<T>(r: T) { core::mem::forget(r) }
+gate_contract!(first_gate_contract, |c| { let r = Dt2::verif_slice_gate_first(c); let a = r.is_ok(); keep(r); a });
+gate_contract!(retry_gate_contract, |c| { let r = Dt2::verif_slice_gate_retry(c); let a = r.is_ok(); keep(r); a });
+// the statistics-returning twin (build_with_shuffled_retries_with_construction_statistics)
+gate_contract!(first_gate_stats_contract, |c| { let r = Dt2::verif_slice_gate_first_stats(c, ConstructionStatistics::default()); let a = r.is_ok(); keep(r); a });
+gate_contract!(retry_gate_stats_contract, |c| { let r = Dt2::verif_slice_gate_retry_stats(c, ConstructionStatistics::default()); let a = r.is_ok(); keep(r); a });
